@@ -264,7 +264,9 @@ pub fn function(f: &Function, args: &[RV]) -> Expect {
                     "milliseconds" => return Expect::val(RV::Ts(t - t.rem_euclid(1000))).or_err(), "microseconds" => return Expect::val(RV::Ts(*t)).or_err(),
                     _ => return Expect::error(),
                 };
-                match v { Some(v) => Expect::val(RV::Ts(v)), None => Expect::error() }
+                // truncation by a duration works on a nanosecond count, which only spans the years 1677..2262: outside, an error is tolerated
+                let outside_ns_range = *t < -9_200_000_000_000_000 || *t > 9_200_000_000_000_000;
+                match v { Some(v) => { let e = Expect::val(RV::Ts(v)); if outside_ns_range && matches!(part.as_str(), "hour" | "minute" | "second") { e.or_err() } else { e } } None => Expect::error() }
             }
             (RV::Text(_), RV::Null) | (RV::Null, _) => null_or_err(),
             _ => Expect::error(),
